@@ -133,6 +133,16 @@ def gen(seed, idx, tier):
                 kind = "exc"
         at = {"point": "line", "func": func, "frac": rnd.random(), "stage": stage}
     scn["faults"] = [] if rnd.random() < 0.03 else [{"kind": kind, "at": at}]
+    if scn["faults"] and rnd.random() < 0.12 and not pause:
+        # fault sequence: a cancellation inside the update at a step that is not a multiple of k,
+        # then a second fault while the final frame is being saved
+        i = rnd.randint(1, max(1, N))
+        if i % k != 0:
+            first = {"kind": "sigint", "at": {"point": rnd.choice(["update.before", "update.after"]), "stage": "S", "step": i}}
+            second = {"kind": rnd.choice(["sigint", "exc", "enospc"]), "at": {"point": "save.before" if rnd.random() < 0.3 else "line", "stage": "S", "step": i, "func": rnd.choice(WRITER_FUNCS), "frac": 0.0}}
+            second["at"]["frac"] = rnd.uniform(0.0, 1.0)
+            second["at"]["final_save"] = True
+            scn["faults"] = [first, second]
     scn["meta"] = {"k": k, "N": N, "engine": "A" if engine_a else "B"}
     return scn
 
@@ -161,6 +171,9 @@ def oracle(scn, sim, h, tw):
     V = []
     fi = h.fire_info
     fault = scn["faults"][0] if scn["faults"] else None
+    if fi is not None and len(scn["faults"]) > 1 and len(h.faults_fired) > 1:
+        fault = scn["faults"][1]  # a fault sequence: the last fault that fired classifies the stop
+        h.probe("fault_sequence_both_fired")
     k = scn["options"]["save_every"]
     stub = scn.get("physics") == "stub"
     out = scn["observer"]["output"]
@@ -355,6 +368,10 @@ def resolve_line_fault(scn, tw):
             if n == 0:
                 raise Discard(f"function {at['func']} never runs in this scenario")
             at["ordinal"] = min(n - 1, int(at["frac"] * n))
+            if at.get("final_save"):
+                calls = max(1, sum(1 for fr in tw.frames if fr["completed"] and fr["step"] > 0))
+                per_call = max(1, n // max(1, calls + 1))
+                at["ordinal_rel"] = min(per_call - 1, int(at["frac"] * per_call))
 
 
 def run(scn):
